@@ -80,6 +80,20 @@ func (d *DefaultMultiFileAppendableHooks) OpenInitialAppendable(opts *Options, s
 		if err != nil {
 			return nil, 0, err
 		}
+
+		// a chunk file is created empty, its header is written (and synced) before any data is appended to it:
+		// an empty last chunk is what an interrupted creation leaves behind, it holds nothing and is created again
+		finfo, err := entries[len(entries)-1].Info()
+		if err != nil {
+			return nil, 0, err
+		}
+
+		if finfo.Size() == 0 && finfo.Mode().IsRegular() && !opts.readOnly {
+			err = os.Remove(filepath.Join(d.path, filename))
+			if err != nil {
+				return nil, 0, err
+			}
+		}
 	} else {
 		appID = 0
 		filename = appendableName(appendableID(0, opts.fileSize), opts.fileExt)
